@@ -6,6 +6,7 @@ func init() {
 	wf := "ast/code_writer_format.go"
 	cc := "compiler/compiler.go"
 	addVariants(
+		variant{Prop: "C06", Name: "flush-keeps-layout-pending-on-empty-output", File: wf, Old: "\t\t}\n\t}\n\tcw.clearPending()\n}", New: "\t\t}\n\t\tcw.clearPending()\n\t}\n}", Rule: "R6.5", Construct: "flushPending"},
 		// R6.1
 		variant{Prop: "C06", Name: "printer-branches-on-pretty-switch", File: a, Old: "\tls.Name.WriteTo(cw)\n\tif ls.Value != nil {", New: "\tls.Name.WriteTo(cw)\n\tif ls.Value != nil && !cw.PrettyPrint {", Rule: "R6.1", Construct: "(*ast.LetStatement).WriteTo: access"},
 		variant{Prop: "C06", Name: "pending-queue-gets-a-semicolon", File: wf, Old: "cw.pendings = append(cw.pendings, '\\n')", New: "cw.pendings = append(cw.pendings, ';', '\\n')", Rule: "R6.1", Construct: "store #"},
